@@ -322,12 +322,21 @@ class ExecBase:
         # a reference stored into a field declared RefOf(C) must be null or an instance of C: every READ of the field assumes it (read_field),
         # so an unchecked store of another class would make all later paths contradictory (vacuous proofs) -- found by a mutant that pushed
         # a sequence object where a value was declared
-        if isinstance(v, VRef) and isinstance(tsort, TRefS) and getattr(tsort, "cls", None) and not cx_spec_mode(self):
+        if isinstance(v, VRef) and isinstance(tsort, TRefS) and getattr(tsort, "cls", None):
             want = tsort.cls
-            if not (v.cls is not None and self.repo.is_subclass(v.cls, want)):
-                exc0 = getattr(self, "typing_exceptions", {}) or {}
-                if name not in exc0:
-                    self.oblige(st, z3.Or(v.t == 0, self.isinstance_term(v, want)), "implicit", "well_typed_store[%s]" % name)
+            exc0 = getattr(self, "typing_exceptions", {}) or {}
+            if not (v.cls is not None and self.repo.is_subclass(v.cls, want)) and name not in exc0:
+                inst = z3.Or(v.t == 0, self.isinstance_term(v, want))
+                if not self.feasible(st, inst):
+                    # the path condition excludes every class the field may hold: a definitely ill-typed store
+                    self.oblige(st, z3.BoolVal(False), "implicit", "well_typed_store[%s]" % name)
+                else:
+                    # a downcast, as in the code's own `cast(crep.cpp_value, ...)`: assumed, and recorded as an unchecked assumption
+                    st.pc.append(inst)
+                    w = "downcast assumed in %s: the object stored into field %s is a %s (the code relies on typing.cast; inputs for which it is not are outside the proof)" % (
+                        self.cur_fn, name, want.split(".")[-1])
+                    if w not in self.warnings:
+                        self.warnings.append(w)
         try:
             t = term_of(v, s)
         except Unsupported:
